@@ -29,6 +29,9 @@ RULE = (
     'Non-trivial: instant within 2 days of a month end or dom >= 29 (delay '
     'parts); an event came due after boot or the history spans >= 2 periods '
     '(history). Distinct = SHA-1 of the case JSON.'
+    ' Part accepted: the candidate sits among 0-2 well-formed events of the'
+    ' same package at a generated position. History part: engines may have '
+    'two classes of one name in two modules of a task, both with events. '
 )
 ASSUMPTIONS = [
     'moments as accepted by rule_10 within the documented ranges: dow 0..6 '
